@@ -24,6 +24,11 @@ def reset_stage_for_retry(stage: StageExecution) -> None:
     # split's recorded branch activations belong to the previous iteration.
     for key in ("_join_fired", "_completed_branches", "_activated_branches"):
         stage.context.pop(key, None)
+    # A signal consumed by the previous run must not resume the re-armed stage
+    # again (an approval gate inside a loop, or restarted by an operator, would
+    # pass on the old decision). Signals still waiting in _buffered_signals stay.
+    for key in ("_signal_name", "_signal_data"):
+        stage.context.pop(key, None)
     for task in stage.tasks:
         task.status = WorkflowStatus.NOT_STARTED
         task.start_time = None
